@@ -641,10 +641,22 @@ impl GraphDatabaseService {
     /// get node deletions for a room at a specific day
     ///
     pub async fn delete_nodes(&self, nodes: Vec<NodeDeletionEntry>) -> Result<()> {
-        let (send_response, receive_response) = oneshot::channel::<Result<()>>();
-        let msg = DbMessage::DeleteNodes(nodes, send_response);
-        let _ = self.sender.send(msg).await;
-        receive_response.await?
+        // the records of one message are keyed by row id further down: two records that name the same row
+        // (deleted by two members on the same day) travel in separate messages, in the order of the answer
+        let mut remaining = nodes;
+        loop {
+            let mut seen = HashSet::new();
+            let (batch, rest): (Vec<_>, Vec<_>) =
+                remaining.into_iter().partition(|node| seen.insert(node.id));
+            remaining = rest;
+            let (send_response, receive_response) = oneshot::channel::<Result<()>>();
+            let msg = DbMessage::DeleteNodes(batch, send_response);
+            let _ = self.sender.send(msg).await;
+            receive_response.await??;
+            if remaining.is_empty() {
+                return Ok(());
+            }
+        }
     }
 
     ///
